@@ -352,6 +352,10 @@ def desugar(text, rules, counts):
             text, c = _r_enum(text)
         elif r == "R-EXTMAP":
             text, c = _r_extmap(text)
+        elif r == "R-CONTINUE":
+            text, c = _r_continue(text)
+        elif r == "R-COLLECT":
+            text, c = _r_collect(text)
         elif r == "R-MAPITER":
             text, c = _r_mapiter(text)
         elif r in ("R-QCLOSURE", "R-UNDERSCORE"):
@@ -517,6 +521,67 @@ def _r_extmap(text):
         new = "for %s in %s { %s.push(%s); }" % (mm.group(1), recv, mt.group(1), expr)
         text = text[:mt.start()] + new + text[e + 1:]
         m = mask(text)
+        n += 1
+    return text, n
+
+
+def _r_continue(text):
+    """`continue` elimination for `for` loops (Verus: "for-loops do not yet support continue"). For every for-loop whose body
+    contains `continue;` (each one the LAST statement of its block): the body gets `let mut vx_skip = false;` first, every
+    `continue;` becomes `vx_skip = true;`, and every top-level statement of the body after the first is wrapped in
+    `if !vx_skip { .. }` - the rest of the iteration is skipped exactly as `continue` does."""
+    n = 0
+    done = set()
+    while True:
+        m = mask(text)
+        target = None
+        for mt in re.finditer(r"\bfor\b", m):
+            if mt.start() in done:
+                continue
+            o = find_top_level(m, mt.end(), len(m), "{")
+            if o < 0:
+                continue
+            c = match_close(m, o)
+            if re.search(r"\bcontinue\s*;", m[o + 1:c]):
+                target = (mt.start(), o, c)
+                break
+        if not target:
+            break
+        (k, o, c) = target
+        body_m = m[o + 1:c]
+        for cm in re.finditer(r"\bcontinue\s*;", body_m):
+            nxt = skip_ws(body_m, cm.end())
+            if nxt < len(body_m) and body_m[nxt] != "}":
+                raise SpliceError("R-CONTINUE: `continue` is not the last statement of its block")
+        if re.search(r"\bbreak\b", body_m):
+            raise SpliceError("R-CONTINUE: loop body also contains break")
+        st = statements(m, o, c)
+        pieces = []
+        for idx, (a, b, term) in enumerate(st):
+            stmt = text[a:b]
+            stmt = re.sub(r"\bcontinue\s*;", "vx_skip = true;", stmt)
+            if idx == 0:
+                pieces.append(stmt)
+            else:
+                pieces.append("if !vx_skip {\n            " + stmt + "\n            }")
+        new_body = "{\n            let mut vx_skip = false;\n            " + "\n            ".join(pieces) + "\n        }"
+        text = text[:o] + new_body + text[c + 1:]
+        done.add(k)
+        n += 1
+    return text, n
+
+
+def _r_collect(text):
+    """`XS.iter().cloned().collect()` -> `vx_collect_set(XS)` and `S.into_iter().collect::<Vec<_>>()` -> `vx_set_into_vec(S)`
+    (iterator adapters are outside Verus; the two trusted helpers state set equality of the contents)."""
+    n = 0
+    m = mask(text)
+    for mt in reversed(list(re.finditer(r"(\w+)\.iter\(\)\s*\.cloned\(\)\s*\.collect\(\)", m))):
+        text = text[:mt.start()] + "vx_collect_set(%s)" % mt.group(1) + text[mt.end():]
+        n += 1
+    m = mask(text)
+    for mt in reversed(list(re.finditer(r"(\w+)\.into_iter\(\)\s*\.collect::<\s*Vec<_>\s*>\(\)", m))):
+        text = text[:mt.start()] + "vx_set_into_vec(%s)" % mt.group(1) + text[mt.end():]
         n += 1
     return text, n
 
